@@ -18,7 +18,8 @@ import numpy as np
 
 from .. import fem
 from .. import universe as U
-from ..core import guarded, MachineryError
+from ..core import MachineryError
+from ..fem import guarded
 from ..project import fx
 
 RULE = ('scenario = one mesh + one (trial, test) pair of bases + one integrand of the grammar per form type; '
@@ -820,6 +821,10 @@ def run(ctx):
         raise box['exc']
     ctx.notes['skipped_outside_exact_universe'] = sum(1 for s in scs if not s['events'])
     ctx.validate('TraceC01', scs, jvms=8)
+    if any(f['clause'] == 'InterpreterAgrees' for f in ctx.failures):
+        # the Python term interpreter disagrees with EvalN: the duplicated artefact of the harness is broken, this says
+        # nothing about the library
+        raise MachineryError('harness term interpreter disagrees with AssemblySem.EvalN (Chk events)')
     keys = {json.dumps([s['tags'].get(k) for k in ('kind', 'btype', 'eu', 'ev', 'tier', 'family')] +
                        [s['recipe'].get('bil'), s['recipe'].get('form')], sort_keys=True)
             for s in scs if s['events']}
